@@ -62,6 +62,8 @@ type outcome struct {
 	rows     [][]interface{}
 	affected int64
 	lastID   int64
+	failAt   int // > 0: reading row number failAt of the result fails with failErr
+	failErr  error
 }
 
 func (e *Engine) newTxn() *txn {
@@ -387,6 +389,10 @@ func (s *session) execPiece(ctx context.Context, p *piece, args []interface{}) (
 		e.record(s, p.kind, p.table, p.text, args, err, n, inTxn)
 	}()
 	ferr := e.matchFault(s, p.kind, p.table)
+	var midResult *rowFault
+	if rf, ok := ferr.(*rowFault); ok {
+		midResult, ferr = rf, nil
+	}
 	if d, slow := ferr.(*delayFault); slow {
 		// a slow server: the statement is held up (without the engine lock), then runs
 		e.mu.Unlock()
@@ -404,6 +410,9 @@ func (s *session) execPiece(ctx context.Context, p *piece, args []interface{}) (
 	for {
 		out, err = s.tryPiece(p, args)
 		if _, blocked := err.(*wouldBlock); !blocked {
+			if err == nil && out != nil && midResult != nil {
+				out.failAt, out.failErr = midResult.at, midResult.err
+			}
 			return out, err
 		}
 		if !e.block {
